@@ -19,7 +19,8 @@ class LambdaTokenTranslator(AbstractTranslator):
         condition_value = literal
 
         if literal:
-            parsed_literal = re.findall(r'^\'(>=|<=|>|<|<>)((\d+)((\.)(\d+))?(e(-?\d+))?)?\'$', literal)
+            # ASCII digits only: the number is written into the generated code as it stands
+            parsed_literal = re.findall(r'^\'(>=|<=|>|<|<>)((\d+)((\.)(\d+))?(e(-?\d+))?)?\'$', literal, re.ASCII)
             if parsed_literal:
                 parsed_literal = parsed_literal[0]
                 if parsed_literal[0]:
